@@ -369,21 +369,29 @@ func WorkerMain(t *testing.T, props map[string]*Prop) {
 	}
 	startN := envU64("VERIF_START_N", 0)
 	memLimit := uint64(envInt("VERIF_MEM_LIMIT_MB", 2000)) << 20
+	lastMemCheck := time.Now()
+	// memHigh looks at the heap at most every two seconds.
+	memHigh := func() bool {
+		if time.Since(lastMemCheck) < 2*time.Second {
+			return false
+		}
+		lastMemCheck = time.Now()
+		var ms runtime.MemStats
+		runtime.ReadMemStats(&ms)
+		if ms.HeapInuse+ms.StackInuse <= memLimit {
+			return false
+		}
+		debug.FreeOSMemory()
+		runtime.ReadMemStats(&ms)
+		return ms.HeapInuse+ms.StackInuse > memLimit
+	}
 	for n := startN; !stop; n++ {
 		if time.Since(start) > budget || (maxCases > 0 && int(n) >= maxCases) {
 			break
 		}
-		if n > startN && (n-startN)%25 == 0 {
-			var ms runtime.MemStats
-			runtime.ReadMemStats(&ms)
-			if ms.HeapInuse+ms.StackInuse > memLimit {
-				debug.FreeOSMemory()
-				runtime.ReadMemStats(&ms)
-				if ms.HeapInuse+ms.StackInuse > memLimit {
-					rep.Resume = n
-					break
-				}
-			}
+		if n > startN && memHigh() {
+			rep.Resume = n
+			break
 		}
 		idx := n*uint64(workers) + uint64(worker)
 		caseSeed := Mix(seed, idx)
@@ -403,6 +411,13 @@ func WorkerMain(t *testing.T, props map[string]*Prop) {
 		x := NewTape(Mix(caseSeed, 0xe)).Stream("expand")
 		for _, sub := range p.Expand(tier, o, rec, x) {
 			if time.Since(start) > budget*2 {
+				break
+			}
+			if memHigh() {
+				// The rest of this base case's fault cases are given up;
+				// a fresh process carries on with the next base case.
+				rep.Resume = n + 1
+				stop = true
 				break
 			}
 			st := NewReplayTape(caseSeed, sub)
